@@ -307,12 +307,14 @@ def gen_fock(rng, opts):
 def _gaussian_gate(g):
     rng = g.rng
     n = len(g.active)
-    choices = [("passive", 4), ("Squeezing", 3), ("Displacement", 3), ("PositionDisplacement", 1), ("MomentumDisplacement", 1), ("QuadraticPhase", 1)]
+    choices = [("passive", 4), ("Squeezing", 3), ("Displacement", 3), ("PositionDisplacement", 1), ("MomentumDisplacement", 1), ("QuadraticPhase", 1), ("Attenuator", 1)]
     if n >= 2:
         choices += [("Squeezing2", 1), ("ControlledX", 1), ("ControlledZ", 1)]
     t = rng.weighted(choices)
     if t == "passive":
         return passive_gate(g)
+    if t == "Attenuator":  # an instruction with its own _validate and an outcome-dependent parameter
+        return g.maybe_adaptive({"type": t, "modes": g.pick_modes(1), "params": {"theta": _angle(rng), "mean_thermal_excitation": _r(rng.uniform(0.0, 0.3))}}, "theta", 0.5)
     if t == "Squeezing":
         return g.maybe_adaptive({"type": t, "modes": g.pick_modes(1), "params": {"r": _small(rng, 0.6), "phi": _angle(rng)}}, "r", 0.2)
     if t == "Displacement":
@@ -335,6 +337,18 @@ def gen_gaussian(rng, opts):
     g = G(rng, "GaussianSimulator", opts)
     g.active = list(range(d))
     cfg = {}
+    if d >= 2 and rng.chance(opts.get("correlated_dyne_p", 0.15)):
+        # squeezed, entangled modes measured jointly: the covariance handed to the sampler is
+        # ill-conditioned (homodyne is a general-dyne measurement with z = 1e-4), which is where
+        # numerical fallbacks and their generators live
+        g.add({"type": "Vacuum", "modes": None, "params": {}})
+        r_all = _r(rng.uniform(0.3, 1.5))
+        for m in range(d):
+            g.add({"type": "Squeezing", "modes": [m], "params": {"r": r_all, "phi": _r(0.3 * m)}})
+        for m in range(d - 1):
+            g.add({"type": "Beamsplitter", "modes": [m, m + 1], "params": {"theta": _r(rng.uniform(0.4, 1.0)), "phi": _r(rng.uniform(0.0, 0.5))}})
+        g.add({"type": "HomodyneMeasurement", "modes": list(range(d)), "params": {"phi": _r(rng.uniform(0.0, 1.0))}})
+        return {"sim": "GaussianSimulator", "d": d, "config": cfg, "program": g.prog}
     if rng.chance(0.7):
         g.add({"type": "Vacuum", "modes": None, "params": {}})
     else:
